@@ -1,2 +1,9 @@
 // host unit: header-only conversion helpers (convert_impl overloads live in tokenizer.h)
 #include <votca/tools/tokenizer.h>
+// instantiations of the arithmetic conversion (R11.9 looks at both the template pattern and these)
+namespace vsa_host {
+inline double to_double(const std::string &s) { return votca::tools::convertFromString<double>(s); }
+inline long to_long(const std::string &s) { return votca::tools::convertFromString<long>(s); }
+inline double (*keep_d)(const std::string &) = &to_double;
+inline long (*keep_l)(const std::string &) = &to_long;
+}  // namespace vsa_host
